@@ -368,7 +368,7 @@ class C20Check(Check):
         u = n - n_lab
         mode = f.pick(["order", "isolated", "threads", "threads"])
         cpu = f.pick([1, 2, 3, 4, 16, 64])
-        nj = f.pick([1, 2, 3, u, u + 3, -1, -1, -2, max(1, u // 2)])
+        nj = f.pick([1, 2, 3, u, u + 3, -1, -1, -2, -3, -5, max(1, u // 2)])
         sc = {
             "engine": "parsim",
             "entry": key,
@@ -393,7 +393,9 @@ class C20Check(Check):
             # a pool of integer dtype (e.g. counts) is a legal X
             "int_X": g.chance(0.15),
             # pre-emption plan: [task rank, fraction of that task's own run length], at most 6 per run
-            "switches": sorted([f.randrange(0, 4), round(f.random() ** f.pick([1, 2]), 4)] for _ in range(f.pick([0, 1, 2, 3, 4, 6]))) if mode == "threads" else [],
+            # (a quarter of the points right at the start of a task: races on state that is set up in the task's
+            # first statements)
+            "switches": sorted([f.randrange(0, 4), f.pick([0.0, 0.001, 0.003, 0.01]) if f.chance(0.25) else round(f.random() ** f.pick([1, 2]), 4)] for _ in range(f.pick([0, 1, 2, 3, 4, 6]))) if mode == "threads" else [],
         }
         return sc
 
